@@ -1,12 +1,329 @@
 import GrinVerif.Drv.Common
-/-! Driver glue for the `ser` domain (line protocol handler). -/
+import GrinVerif.Model.SerBlock
+/-! Driver glue for the `ser` domain (line protocol handler).
+
+    ser const <name>                                   => <value>
+    ser prim <u8|u16|u32|u64|i64|bytes|fixed:N|empty:N|expect:N> <hex> => ok <value> <consumed> | err <E>
+    ser dec <Type> <ver> <nrd 0|1> <chain A|M> <hex>   => ok <consumed> <enc@1> <enc@2> <enc@3> <hash|none> | err <E>
+    ser enc <Type> <ver> <chain A|M> <value tokens…>   => <enc|E:err> <hash|none>
+
+`enc@v` is the model's re-encoding of the decoded value at protocol version v (`E:<err>` when the
+writer refuses), `hash` the blake2b-256 of the hash-mode bytes for types that have a hash. -/
 namespace GV.Drv.SerD
-open GV GV.Drv
+open GV GV.Drv GV.Ser
 
 structure St where
   dummy : Unit := ()
 
-def handle (st : St) (_args : List String) (_impl : String) : St × Verdict :=
-  (st, .unknown)
+/-- the real sort key: blake2b-256 of the hash-mode bytes, compared as `[u8; 32]` -/
+def realKey (b : Bytes) : Nat := ofBE (h256 b)
+
+def mkCfg (ver : Nat) (nrd : Bool) (chain : String) : Option Cfg :=
+  match chain with
+  | "A" => some { ver := ver, nrd := nrd, maxWeight := GV.Gen.TESTING_MAX_BLOCK_WEIGHT,
+                  proofSize := GV.Gen.AUTOMATED_TESTING_PROOF_SIZE, key := realKey }
+  | "M" => some { ver := ver, nrd := nrd, maxWeight := GV.Gen.MAX_BLOCK_WEIGHT,
+                  proofSize := GV.Gen.PROOFSIZE, key := realKey }
+  | _ => none
+
+/-- one serialisable type as the driver sees it -/
+structure Codec (α : Type) where
+  dec : Cfg → Parser α
+  /-- full-mode encoding at the given version (`Cfg` supplies key / proof size only) -/
+  enc : Cfg → Nat → α → Except SerErr Bytes
+  /-- hash-mode bytes, if the type has an identity hash -/
+  hashB : Cfg → α → Option Bytes
+  /-- parse a value from line tokens (for `enc` lines) -/
+  parse : List String → Option (α × List String)
+
+def showEnc : Except SerErr Bytes → String
+  | .ok b => toHex b
+  | .error e => "E:" ++ e.name
+
+def showHash : Option Bytes → String
+  | some b => toHex (h256 b)
+  | none => "none"
+
+def runDec {α : Type} (cd : Codec α) (c : Cfg) (bs : Bytes) : String :=
+  match cd.dec c bs with
+  | .error e => "err " ++ e.name
+  | .ok (x, r) =>
+    s!"ok {bs.length - r.length} {showEnc (cd.enc c 1 x)} {showEnc (cd.enc c 2 x)} {showEnc (cd.enc c 3 x)} {showHash (cd.hashB c x)}"
+
+def runEnc {α : Type} (cd : Codec α) (c : Cfg) (toks : List String) : Option String :=
+  match cd.parse toks with
+  | some (x, []) => some s!"{showEnc (cd.enc c c.ver x)} {showHash (cd.hashB c x)}"
+  | _ => none
+
+/-! ### token parsers for values -/
+
+abbrev TokP (α : Type) := List String → Option (α × List String)
+
+def tNat : TokP Nat
+  | t :: r => (t.toNat?).map (·, r)
+  | [] => none
+def tInt : TokP Int
+  | t :: r => (t.toInt?).map (·, r)
+  | [] => none
+def tHex : TokP Bytes
+  | t :: r => (parseHex t).map (·, r)
+  | [] => none
+def tNatList : TokP (List Nat)
+  | t :: r => (parseNatList t).map (·, r)
+  | [] => none
+
+def tMany {α : Type} (p : TokP α) : Nat → TokP (List α)
+  | 0, ts => some ([], ts)
+  | n+1, ts => do
+    let (x, ts) ← p ts
+    let (xs, ts) ← tMany p n ts
+    pure (x :: xs, ts)
+
+/-- `<n> item…` -/
+def tCounted {α : Type} (p : TokP α) : TokP (List α) := fun ts => do
+  let (n, ts) ← tNat ts
+  tMany p n ts
+
+def tKernelFeatures : TokP KernelFeatures
+  | "P" :: ts => do let (f, ts) ← tNat ts; pure (.plain f, ts)
+  | "C" :: ts => some (.coinbase, ts)
+  | "H" :: ts => do let (f, ts) ← tNat ts; let (l, ts) ← tNat ts; pure (.heightLocked f l, ts)
+  | "N" :: ts => do let (f, ts) ← tNat ts; let (l, ts) ← tNat ts; pure (.noRecentDuplicate f l, ts)
+  | _ => none
+
+def tTxKernel : TokP TxKernel := fun ts => do
+  let (f, ts) ← tKernelFeatures ts
+  let (e, ts) ← tHex ts
+  let (s, ts) ← tHex ts
+  pure ({ features := f, excess := e, excessSig := s }, ts)
+
+def tOutputFeatures : TokP OutputFeatures
+  | "0" :: ts => some (.plain, ts)
+  | "1" :: ts => some (.coinbase, ts)
+  | _ => none
+
+def tInput : TokP Input := fun ts => do
+  let (f, ts) ← tOutputFeatures ts
+  let (c, ts) ← tHex ts
+  pure ({ features := f, commit := c }, ts)
+
+def tOutputId : TokP OutputId := fun ts => do
+  let (f, ts) ← tOutputFeatures ts
+  let (c, ts) ← tHex ts
+  pure ({ features := f, commit := c }, ts)
+
+def tRangeProof : TokP RangeProof := fun ts => do
+  let (n, ts) ← tNat ts
+  let (p, ts) ← tHex ts
+  pure ({ plen := n, proof := p }, ts)
+
+def tOutput : TokP Output := fun ts => do
+  let (i, ts) ← tOutputId ts
+  let (p, ts) ← tRangeProof ts
+  pure ({ id := i, proof := p }, ts)
+
+def tInputs : TokP Inputs
+  | "CO" :: ts => do let (l, ts) ← tCounted tHex ts; pure (.commitOnly l, ts)
+  | "FC" :: ts => do let (l, ts) ← tCounted tInput ts; pure (.featuresAndCommit l, ts)
+  | _ => none
+
+def tTxBody : TokP TxBody := fun ts => do
+  let (i, ts) ← tInputs ts
+  let (o, ts) ← tCounted tOutput ts
+  let (k, ts) ← tCounted tTxKernel ts
+  pure ({ inputs := i, outputs := o, kernels := k }, ts)
+
+def tTransaction : TokP Transaction := fun ts => do
+  let (off, ts) ← tHex ts
+  let (b, ts) ← tTxBody ts
+  pure ({ offset := off, body := b }, ts)
+
+def tProof : TokP Proof := fun ts => do
+  let (eb, ts) ← tNat ts
+  let (ns, ts) ← tNatList ts
+  pure ({ edgeBits := eb, nonces := ns }, ts)
+
+def tProofOfWork : TokP ProofOfWork := fun ts => do
+  let (td, ts) ← tNat ts
+  let (ss, ts) ← tNat ts
+  let (n, ts) ← tNat ts
+  let (p, ts) ← tProof ts
+  pure ({ totalDifficulty := td, secondaryScaling := ss, nonce := n, proof := p }, ts)
+
+def tBlockHeader : TokP BlockHeader := fun ts => do
+  let (version, ts) ← tNat ts
+  let (height, ts) ← tNat ts
+  let (timestamp, ts) ← tInt ts
+  let (prevHash, ts) ← tHex ts
+  let (prevRoot, ts) ← tHex ts
+  let (outputRoot, ts) ← tHex ts
+  let (rangeProofRoot, ts) ← tHex ts
+  let (kernelRoot, ts) ← tHex ts
+  let (tko, ts) ← tHex ts
+  let (oms, ts) ← tNat ts
+  let (kms, ts) ← tNat ts
+  let (pow, ts) ← tProofOfWork ts
+  pure ({ version := version, height := height, prevHash := prevHash, prevRoot := prevRoot,
+          timestamp := timestamp, outputRoot := outputRoot, rangeProofRoot := rangeProofRoot,
+          kernelRoot := kernelRoot, totalKernelOffset := tko, outputMmrSize := oms,
+          kernelMmrSize := kms, pow := pow }, ts)
+
+def tBlock : TokP Block := fun ts => do
+  let (h, ts) ← tBlockHeader ts
+  let (b, ts) ← tTxBody ts
+  pure ({ header := h, body := b }, ts)
+
+def tCompactBlock : TokP CompactBlock := fun ts => do
+  let (h, ts) ← tBlockHeader ts
+  let (n, ts) ← tNat ts
+  let (o, ts) ← tCounted tOutput ts
+  let (k, ts) ← tCounted tTxKernel ts
+  let (i, ts) ← tCounted tHex ts
+  pure ({ header := h, nonce := n, body := { outFull := o, kernFull := k, kernIds := i } }, ts)
+
+def tTip : TokP Tip := fun ts => do
+  let (h, ts) ← tNat ts
+  let (l, ts) ← tHex ts
+  let (p, ts) ← tHex ts
+  let (d, ts) ← tNat ts
+  pure ({ height := h, lastBlockH := l, prevBlockH := p, totalDifficulty := d }, ts)
+
+/-! ### the codec table -/
+
+def okE (b : Bytes) : Except SerErr Bytes := .ok b
+
+def exceptToOption {α : Type} : Except SerErr α → Option α
+  | .ok x => some x
+  | .error _ => none
+
+def cKernelFeatures : Codec KernelFeatures :=
+  { dec := decKernelFeatures, enc := fun _ v x => okE (encKernelFeatures v .full x),
+    hashB := fun _ _ => none, parse := tKernelFeatures }
+def cTxKernel : Codec TxKernel :=
+  { dec := decTxKernel, enc := fun _ v x => okE (encTxKernel v .full x),
+    hashB := fun _ x => some x.hashBytes, parse := tTxKernel }
+def cNrdHeight : Codec Nat :=
+  { dec := fun _ => decNrdHeight, enc := fun _ _ x => okE (writeU16 x),
+    hashB := fun _ x => some (writeU16 x), parse := tNat }
+def cOutputFeatures : Codec OutputFeatures :=
+  { dec := fun _ => decOutputFeatures, enc := fun _ _ x => okE (encOutputFeatures x),
+    hashB := fun _ _ => none, parse := tOutputFeatures }
+def cInput : Codec Input :=
+  { dec := fun _ => decInput, enc := fun _ _ x => okE (encInput x),
+    hashB := fun _ x => some x.hashBytes, parse := tInput }
+def cCommitWrapper : Codec Bytes :=
+  { dec := fun _ => decCommitWrapper, enc := fun _ _ x => okE (encCommitWrapper x),
+    hashB := fun _ x => some (encCommitWrapper x), parse := tHex }
+def cOutputId : Codec OutputId :=
+  { dec := fun _ => decOutputId, enc := fun _ _ x => okE (encOutputId x),
+    hashB := fun _ x => some x.hashBytes, parse := tOutputId }
+def cRangeProof : Codec RangeProof :=
+  { dec := fun _ => decRangeProof, enc := fun _ _ x => okE (encRangeProof x),
+    hashB := fun _ x => some (encRangeProof x), parse := tRangeProof }
+def cOutput : Codec Output :=
+  { dec := fun _ => decOutput, enc := fun _ _ x => okE (encOutput x),
+    hashB := fun _ x => some x.hashBytes, parse := tOutput }
+def cTxBody : Codec TxBody :=
+  { dec := decTxBody, enc := fun c v x => encTxBody c.key v .full x,
+    hashB := fun _ _ => none, parse := tTxBody }
+def cTransaction : Codec Transaction :=
+  { dec := decTransaction, enc := fun c v x => encTransaction c.key v .full x,
+    hashB := fun c x => exceptToOption (x.hashBytes c.key), parse := tTransaction }
+def cProof : Codec Proof :=
+  { dec := decProof, enc := fun c _ x => okE (encProof c.proofSize .full x),
+    hashB := fun c x => some (x.hashBytes c.proofSize), parse := tProof }
+def cProofOfWork : Codec ProofOfWork :=
+  { dec := decProofOfWork, enc := fun c _ x => okE (encProofOfWork c.proofSize .full x),
+    hashB := fun _ _ => none, parse := tProofOfWork }
+def cBlockHeader : Codec BlockHeader :=
+  { dec := decBlockHeader, enc := fun c _ x => okE (encBlockHeader c.proofSize .full x),
+    hashB := fun c x => some (x.hashBytes c.proofSize), parse := tBlockHeader }
+def cBlock : Codec Block :=
+  { dec := decBlock, enc := fun c v x => encBlock c.key c.proofSize v .full x,
+    hashB := fun c x => some (x.hashBytes c.proofSize), parse := tBlock }
+def cShortId : Codec Bytes :=
+  { dec := fun _ => decShortId, enc := fun _ _ x => okE (encShortId x),
+    hashB := fun _ x => some (encShortId x), parse := tHex }
+def cCompactBlock : Codec CompactBlock :=
+  { dec := decCompactBlock, enc := fun c v x => okE (encCompactBlock c.proofSize v .full x),
+    hashB := fun c x => some (x.hashBytes c.proofSize), parse := tCompactBlock }
+def cTip : Codec Tip :=
+  { dec := fun _ => decTip, enc := fun _ _ x => okE (encTip x),
+    hashB := fun _ _ => none, parse := tTip }
+
+/-- dispatch on the type name; `k` receives the codec -/
+def withCodec (ty : String) (k : {α : Type} → Codec α → Option String) : Option String :=
+  match ty with
+  | "KernelFeatures" => k cKernelFeatures
+  | "TxKernel" => k cTxKernel
+  | "NRDRelativeHeight" => k cNrdHeight
+  | "OutputFeatures" => k cOutputFeatures
+  | "Input" => k cInput
+  | "CommitWrapper" => k cCommitWrapper
+  | "OutputIdentifier" => k cOutputId
+  | "RangeProof" => k cRangeProof
+  | "Output" => k cOutput
+  | "TransactionBody" => k cTxBody
+  | "Transaction" => k cTransaction
+  | "Proof" => k cProof
+  | "ProofOfWork" => k cProofOfWork
+  | "BlockHeader" => k cBlockHeader
+  | "Block" => k cBlock
+  | "ShortId" => k cShortId
+  | "CompactBlock" => k cCompactBlock
+  | "Tip" => k cTip
+  | _ => none
+
+def showPrim {α : Type} (sh : α → String) (bs : Bytes) : Except SerErr (α × Bytes) → String
+  | .ok (x, r) => s!"ok {sh x} {bs.length - r.length}"
+  | .error e => "err " ++ e.name
+
+def runPrim (name : String) (bs : Bytes) : Option String :=
+  match name.splitOn ":" with
+  | ["u8"] => some (showPrim toString bs (readU8 bs))
+  | ["u16"] => some (showPrim toString bs (readU16 bs))
+  | ["u32"] => some (showPrim toString bs (readU32 bs))
+  | ["u64"] => some (showPrim toString bs (readU64 bs))
+  | ["i64"] => some (showPrim toString bs (readI64 bs))
+  | ["bytes"] => some (showPrim toHex bs (readBytesLenPrefix bs))
+  | ["fixed", n] => n.toNat?.map fun n => showPrim toHex bs (readFixed n bs)
+  | ["empty", n] => n.toNat?.map fun n => showPrim (fun _ => "unit") bs (readEmpty n bs)
+  | ["expect", n] => n.toNat?.map fun n => showPrim toString bs (expectU8 n bs)
+  | _ => none
+
+def constVal : String → Option String
+  | "ts_max" => some (toString TS_MAX)
+  | "ts_min" => some (toString TS_MIN)
+  | "max_proof_size" => some (toString MAX_PROOF_SIZE)
+  | "nrd_max" => some (toString NRD_MAX)
+  | "local_version" => some (toString LOCAL_VERSION)
+  | "db_version" => some (toString DB_VERSION)
+  | "max_block_weight_A" => some (toString GV.Gen.TESTING_MAX_BLOCK_WEIGHT)
+  | "max_block_weight_M" => some (toString GV.Gen.MAX_BLOCK_WEIGHT)
+  | "proofsize_A" => some (toString GV.Gen.AUTOMATED_TESTING_PROOF_SIZE)
+  | "proofsize_M" => some (toString GV.Gen.PROOFSIZE)
+  | _ => none
+
+def ofOpt (impl : String) : Option String → Verdict
+  | some m => cmpModel m impl
+  | none => .unknown
+
+def handle (st : St) (args : List String) (impl : String) : St × Verdict :=
+  match args with
+  | ["const", name] => (st, ofOpt impl (constVal name))
+  | ["prim", name, hex] =>
+    (st, ofOpt impl ((parseHex hex).bind fun bs => runPrim name bs))
+  | ["dec", ty, ver, nrd, chain, hex] =>
+    (st, ofOpt impl (do
+      let v ← ver.toNat?
+      let c ← mkCfg v (nrd == "1") chain
+      let bs ← parseHex hex
+      withCodec ty fun cd => some (runDec cd c bs)))
+  | "enc" :: ty :: ver :: chain :: toks =>
+    (st, ofOpt impl (do
+      let v ← ver.toNat?
+      let c ← mkCfg v true chain
+      withCodec ty fun cd => runEnc cd c toks))
+  | _ => (st, .unknown)
 
 end GV.Drv.SerD
